@@ -4,7 +4,7 @@
 From Coq Require Import List String Bool Arith.
 From Annet Require Import Base.Str Base.Tree Model.Rulebook Model.Diff Spec.P_C03 Proofs.DiffBasics
   Proofs.DiffProofsLib Proofs.DiffProofsAnnot Proofs.DiffProofsSelf Proofs.DiffProofsLossless
-  Proofs.DiffProofsOrder Proofs.DiffProofsMoved.
+  Proofs.DiffProofsOrder Proofs.DiffProofsMoved Proofs.DiffProofsWhole.
 Import ListNotations.
 
 Section C03.
@@ -29,11 +29,21 @@ Section C03.
     moved_ok_top (annot_f rmatch rs old) (annot_f rmatch rs new) (make_diff rmatch rs old new) = true.
   Proof. exact (diff_moved_ok_lib rmatch). Qed.
 
+  (* the same at every depth *)
+  Theorem diff_moved_all : forall rs old new, wf old -> wf new ->
+    moved_ok (annot_f rmatch rs old) (annot_f rmatch rs new) (make_diff rmatch rs old new) = true.
+  Proof. exact (diff_moved_all_lib rmatch). Qed.
+
+  (* a %rewrite block that is shown is shown as re-entered as a whole *)
+  Theorem diff_rewrite_whole : forall rs old new, wf old -> wf new ->
+    rewrite_whole (annot_f rmatch rs old) (annot_f rmatch rs new) (make_diff rmatch rs old new) = true.
+  Proof. exact (diff_rewrite_whole_lib rmatch). Qed.
+
   Theorem diff_P_C03 : forall rs old new, wf old -> wf new ->
     P_C03 rmatch (rs, old, new) (make_diff rmatch rs old new) = true.
   Proof.
     intros rs old new Ho Hn. unfold P_C03.
-    rewrite diff_lossless, diff_order_ok, diff_moved_ok by assumption. cbn [andb].
+    rewrite diff_lossless, diff_order_ok, diff_moved_all, diff_rewrite_whole by assumption. cbn [andb].
     destruct (forest_eqb old new) eqn:E; [|reflexivity].
     apply forest_eqb_eq in E. subst new. rewrite diff_self_empty by assumption. reflexivity.
   Qed.
@@ -43,4 +53,6 @@ Print Assumptions diff_self_empty.
 Print Assumptions diff_lossless.
 Print Assumptions diff_order_ok.
 Print Assumptions diff_moved_ok.
+Print Assumptions diff_moved_all.
+Print Assumptions diff_rewrite_whole.
 Print Assumptions diff_P_C03.
